@@ -10,6 +10,10 @@
 //        SHORT1             write 1 byte, and fail every later write to the same fd with ENOSPC
 //        SHORTM             write len-1 bytes (later calls succeed)
 //        CRASH              _exit(137) immediately before the call (what SIGKILL leaves behind)
+//  FAULTFS_RPREFIX=<prefix> read() calls on files whose path starts with <prefix> are numbered 0,1,2,... on their own
+//                           (logged as "R <k> read <path> <count> <result>")
+//  FAULTFS_RPLAN=k:ACT[,..] the environment's answer at read call k:  SHORT1 (at most 1 byte) | SHORTH (at most half) |
+//                           EINTR (fail once with EINTR, nothing consumed) | EIO (fail, nothing consumed)
 //  FAULTFS_TRACE=<prefix>   additionally log open/close/read/lseek on files whose path starts with <prefix> (not numbered)
 #define _GNU_SOURCE
 #include <dlfcn.h>
@@ -32,6 +36,14 @@ static const char *trace_prefix = NULL;
 static size_t trace_len = 0;
 static int log_fd = -1;
 static long counter = 0;
+static const char *rprefix = NULL;
+static size_t rprefix_len = 0;
+static long rcounter = 0;
+#define MAXRPLAN 16
+static long rplan_k[MAXRPLAN];
+static int rplan_act[MAXRPLAN];
+static int rplan_n = 0;
+enum { R_NONE = 0, R_SHORT1, R_SHORTH, R_EINTR, R_EIO };
 static int detrand = 0;
 static uint64_t detseed = 0;
 
@@ -101,6 +113,22 @@ __attribute__((constructor)) static void init(void) {
             plan_act[plan_n] = !strcmp(a, "ENOSPC") ? A_ENOSPC : !strcmp(a, "EIO") ? A_EIO : !strcmp(a, "EINTR") ? A_EINTR
                              : !strcmp(a, "SHORT1") ? A_SHORT1 : !strcmp(a, "SHORTM") ? A_SHORTM : !strcmp(a, "CRASH") ? A_CRASH : A_NONE;
             plan_n++;
+        }
+        free(copy);
+    }
+    const char *rp = getenv("FAULTFS_RPREFIX");
+    if (rp && *rp) { rprefix = strdup(rp); rprefix_len = strlen(rp); }
+    const char *rpl = getenv("FAULTFS_RPLAN");
+    if (rpl && *rpl && rplan_n == 0) {
+        char *copy = strdup(rpl), *save = NULL;
+        for (char *tok = strtok_r(copy, ",", &save); tok && rplan_n < MAXRPLAN; tok = strtok_r(NULL, ",", &save)) {
+            char *colon = strchr(tok, ':');
+            if (!colon) continue;
+            *colon = 0;
+            rplan_k[rplan_n] = atol(tok);
+            const char *a = colon + 1;
+            rplan_act[rplan_n] = !strcmp(a, "SHORT1") ? R_SHORT1 : !strcmp(a, "SHORTH") ? R_SHORTH : !strcmp(a, "EINTR") ? R_EINTR : !strcmp(a, "EIO") ? R_EIO : R_NONE;
+            rplan_n++;
         }
         free(copy);
     }
@@ -301,6 +329,29 @@ int close(int fd) {
 
 ssize_t read(int fd, void *buf, size_t count) {
     init();
+    if (rprefix) {
+        char path[1024];
+        if (fd_path(fd, path, sizeof path) && under(path, rprefix, rprefix_len)) {
+            long k = __atomic_fetch_add(&rcounter, 1, __ATOMIC_SEQ_CST);
+            int act = R_NONE;
+            for (int i = 0; i < rplan_n; i++)
+                if (rplan_k[i] == k) act = rplan_act[i];
+            ssize_t r;
+            if (act == R_EINTR || act == R_EIO) {
+                errno = act == R_EINTR ? EINTR : EIO;
+                r = -1;
+            } else {
+                size_t c = count;
+                if (act == R_SHORT1 && c > 1) c = 1;
+                if (act == R_SHORTH && c > 1) c = c / 2;
+                r = real_read(fd, buf, c);
+            }
+            int e = errno;
+            logline("R %ld read %s %ld %ld\n", k, path, (long)count, (long)r);
+            errno = e;
+            return r;
+        }
+    }
     ssize_t r = real_read(fd, buf, count);
     if (trace_prefix) {
         char path[1024];
